@@ -558,3 +558,16 @@ func Refs(v ssa.Value) []ssa.Instruction {
 	}
 	return *r
 }
+
+// ErrReturns are the normal returns of fn whose last result is an error
+// (functions without results, or whose last result is not an error, have
+// none).
+func ErrReturns(fn *ssa.Function) []*ssa.Return {
+	var out []*ssa.Return
+	for _, r := range Returns(fn) {
+		if n := len(r.Results); n > 0 && IsErrorType(r.Results[n-1].Type()) {
+			out = append(out, r)
+		}
+	}
+	return out
+}
